@@ -412,6 +412,25 @@ pub fn test_case(which: Which, budget: &Budget, c: &SchedCase, stats: &mut Stats
     }
     let n_first = directed_first.len();
     scheds.extend(directed_first);
+    // thorough tier, small scenarios: EVERY schedule with two preemptions (step pairs x alternative threads).
+    // The second step is counted in the execution that already contains the first preemption.
+    let mut exhaustive_pairs = 0u64;
+    if budget.enum_budget >= 1000 && steps <= 56 && which != Which::C04
+    {
+        for s1 in 1..=steps
+        {
+            for s2 in (s1 + 1)..=(steps + 12)
+            {
+                for (c1, c2) in [(0u16, 0u16), (0, 1), (1, 0), (1, 1)]
+                {
+                    scheds.push(Sched::PreemptAt { highest: false, points: vec![(s1, c1), (s2, c2)] });
+                    exhaustive_pairs += 1;
+                }
+            }
+        }
+        stats.class("all-two-preemption-schedules");
+    }
+    stats.count("two_preemption_schedules", exhaustive_pairs);
     if complete { stats.class("all-single-preemption-schedules"); } else { stats.class("sampled-single-preemption-schedules"); }
     stats.count("steps_serial", steps);
 
